@@ -1,7 +1,7 @@
 (* C19 -- property theorems only.  Proofs live in C19/Proofs*.v. *)
 From Coq Require Import NArith List.
 From DV Require Import Base.Outcome Base.Bytes Base.Names Base.PName C19.Gen C19.Model
-  C19.ModelCmp C19.ProofsDec C19.ProofsOld C19.ProofsNew C19.ProofsAgree C19.ProofsCmp C19.ProofsCmpSound.
+  C19.ModelCmp C19.ProofsDec C19.ProofsOld C19.ProofsNew C19.ProofsAgree C19.ProofsCmp C19.ProofsCmpSound C19.ProofsCmpInv C19.ProofsRev.
 Import ListNotations.
 Local Open Scope N_scope.
 
@@ -106,3 +106,42 @@ Theorem C19_new_compressor_sound_two_names : forall (h c0 : bytes) (n1 n2 : name
      decode_name (h ++ c) (12 + (len c0 + len (wire_abs n1))) (mlen (h ++ c)) = Ok (n2', 12 + len c)).
 Proof. exact compressor_two_names_sound. Qed.
 Print Assumptions C19_new_compressor_sound_two_names.
+
+(* new_compressor_sound in full for the Name path: a fresh compressor, any
+   earlier contents, ANY list of valid names - more than the 32 slots, so slots
+   are evicted and reused - : every name reads back equal up to case through the
+   new and the old reader, each starting where the previous one ended *)
+Theorem C19_new_compressor_sound : forall (h c0 : bytes) (ns : list name) (c : bytes),
+  length h = 12%nat -> wf_bytes c0 -> Forall valid_abs ns ->
+  build_names cs_new c0 (map wire_abs ns) = Ok c ->
+  reads_back h c (len c0) ns.
+Proof. exact new_compressor_sound. Qed.
+Print Assumptions C19_new_compressor_sound.
+
+(* ... and with arbitrary other octets written between the names, from any
+   state that satisfies the invariant *)
+Theorem C19_new_compressor_sound_items : forall (h : bytes), length h = 12%nat ->
+  forall l st c c', Inv st c -> wf_bytes c -> Forall item_ok l ->
+  build_items st c l = Ok c' ->
+  (exists tail, c' = c ++ tail) /\ wf_bytes c' /\ (wf_bytes c' -> items_read_back h c' (len c) l).
+Proof. exact new_compressor_sound_items. Qed.
+Print Assumptions C19_new_compressor_sound_items.
+
+(* RevNameBuf::split_message_bytes runs in lockstep with the NameBuf version:
+   same accept/reject, same end, same labels (reversed behind the root label) *)
+Theorem C19_rev_split_lockstep : forall c start, top_rel (new_split c start) (rev_split c start).
+Proof. exact rev_split_lockstep. Qed.
+Print Assumptions C19_rev_split_lockstep.
+
+Theorem C19_rev_split_total : forall c start, no_panic (rev_split c start).
+Proof. exact rev_split_total. Qed.
+Print Assumptions C19_rev_split_total.
+
+(* hence the reversed-name reader decodes exactly the same paths *)
+Theorem C19_rev_reader_is_path : forall h c, length h = 12%nat -> wf_bytes c -> forall start,
+  (forall rw e, rev_split c start = Ok (rw, e) ->
+     exists n, rw = rev_wire n /\ dpath R_new (h ++ c) (12 + start) (12 + start) 0 n (12 + e)) /\
+  (forall n e, dpath R_new (h ++ c) (12 + start) (12 + start) 0 n e ->
+     rev_split c start = Ok (rev_wire n, e - 12)).
+Proof. exact rev_split_is_path. Qed.
+Print Assumptions C19_rev_reader_is_path.
